@@ -1,11 +1,12 @@
 import ChiaModel.Model.Generator
 import ChiaModel.Props.C07
 import ChiaModel.Props.C11
+import ChiaModel.Lemmas.BundlePath
 /-
 C08 — what the mempool validated is what the block yields.
 -/
 namespace ChiaModel.C08
-open ChiaModel ChiaModel.Gn
+open ChiaModel ChiaModel.Gn ChiaModel.Cond
 
 theorem serialize_ofList_length (l : List Sexp) (term : Sexp) :
     (Sexp.serialize (Sexp.ofList l term)).length = (l.map (fun x => 1 + (Sexp.serialize x).length)).sum + (Sexp.serialize term).length := by
@@ -72,5 +73,313 @@ theorem base_cost_offset (css : List CoinSpendM) (h : ∀ s ∈ css, WF s) (cpb 
     omega
   simp only [QUOTE_BYTES]
   rw [← Nat.add_mul]; congr 1; omega
+
+/-! ## the bundle path and the block path -/
+
+/-- the value of a quoted program `(q . x)` -/
+def quoted : Sexp → Sexp
+  | .pair _ x => x
+  | .atom _ => Sexp.nil
+
+/-- what "the same conditions modulo the visitor" means: the block path's spends are the bundle path's
+spends, in the same order, with `flags` masked to HAS_RELATIVE_CONDITION (the two eligibility bits are
+set by the mempool visitor only), and every bundle-level field other than `cost`, `execution_cost`
+and `validated_signature` is equal. -/
+def SameUpToVisitor (bn bb : Bundle) : Prop :=
+  bn.spends = bb.spends.map blockSpend ∧
+  bn.reserveFee = bb.reserveFee ∧ bn.heightAbsolute = bb.heightAbsolute ∧ bn.secondsAbsolute = bb.secondsAbsolute ∧
+  bn.beforeHeightAbsolute = bb.beforeHeightAbsolute ∧ bn.beforeSecondsAbsolute = bb.beforeSecondsAbsolute ∧
+  bn.aggSigUnsafe = bb.aggSigUnsafe ∧ bn.removalAmount = bb.removalAmount ∧ bn.additionAmount = bb.additionAmount ∧
+  bn.conditionCost = bb.conditionCost
+
+theorem calculateGeneratorLength_reverse (css : List CoinSpendM) :
+    calculateGeneratorLength css.reverse = calculateGeneratorLength css := by
+  simp only [calculateGeneratorLength, List.map_reverse, List.sum_reverse]
+
+theorem quoted_buildGenerator_reverse (css : List CoinSpendM) :
+    quoted (buildGenerator css.reverse) = .pair (Sexp.ofList (css.map item)) Sexp.nil := by
+  rw [buildGenerator_eq]
+  simp only [quoted, List.map_reverse, List.reverse_reverse]
+
+theorem sameUpToVisitor_of_blkRel {k : Nat} {retN retB : Bundle} (env : Env) (st : PState) (h : BlkRel k retN retB)
+    (cn cb : Nat) (v : Bool) :
+    SameUpToVisitor { retN with validatedSignature := v, cost := cn } { postProcess env retB st with cost := cb } := by
+  obtain ⟨h1, h2⟩ := h
+  obtain ⟨p1, p2⟩ := postProcess_blk env retB st
+  refine ⟨?_, ?_⟩
+  · show retN.spends = (postProcess env retB st).spends.map blockSpend
+    rw [p1, h1]
+  · rw [p2, h2]
+    exact ⟨rfl, rfl, rfl, rfl, rfl, rfl, rfl, rfl, rfl⟩
+
+/-- decomposition of an accepting `runSpendbundle` (byte-cost mode) -/
+theorem runSpendbundle_ok {p : Params} {css : List CoinSpendM} {puz : Nat → RunRes} {L : Nat} {bb : Bundle}
+    {pairs : List (Bytes × Bytes)} (hint : hasFlag p.flags Gen.flagInternedGenerator = false)
+    (h : runSpendbundle p css puz L = .ok (bb, pairs)) :
+    (calculateGeneratorLength css - QUOTE_BYTES) * p.costPerByte ≤ L ∧
+    ¬(hasFlag p.flags Gen.flagLimitSpends ∧ css.length > MAX_SPENDS_PER_BLOCK) ∧
+    ∃ ret st left, bundleLoop { flags := p.flags, mempool := true, pkOk := p.pkOk } puz css 0 {} {}
+        (L - (calculateGeneratorLength css - QUOTE_BYTES) * p.costPerByte) = .ok ((ret, st), left) ∧
+      validOk (postProcess { flags := p.flags, mempool := true, pkOk := p.pkOk } ret st) st = true ∧
+      bb = { postProcess { flags := p.flags, mempool := true, pkOk := p.pkOk } ret st with cost := L - left } ∧
+      pairs = st.pkmPairs := by
+  unfold runSpendbundle at h
+  simp only [hint, Bool.false_eq_true, if_false] at h
+  cases h1 : subtractCost L ((calculateGeneratorLength css - QUOTE_BYTES) * p.costPerByte) with
+  | error e => rw [h1] at h; cases h
+  | ok c1 =>
+    rw [h1] at h; simp only at h
+    split at h
+    · cases h
+    rename_i hlim
+    cases h2 : bundleLoop { flags := p.flags, mempool := true, pkOk := p.pkOk } puz css 0 {} {} c1 with
+    | error e => rw [h2] at h; cases h
+    | ok q =>
+      obtain ⟨⟨ret, st⟩, left⟩ := q
+      rw [h2] at h; simp only at h
+      by_cases hv : validOk (postProcess { flags := p.flags, mempool := true, pkOk := p.pkOk } ret st) st = true
+      · simp only [validateConditions, hv, if_true] at h
+        injection h with h; injection h with h3 h4
+        obtain ⟨a1, a2⟩ := C07.subtractCost_ok h1
+        subst a2
+        exact ⟨a1, hlim, ret, st, left, h2, hv, h3.symm, h4.symm⟩
+      · simp only [validateConditions, hv, if_false, Bool.false_eq_true] at h
+        cases h
+
+/-- `finishBundle` under the empty visitor, spelled out -/
+theorem finishBundle_block_ok {env : Env} (hm : env.mempool = false) {sigOk : List (Bytes × Bytes) → Bool}
+    {ret : Bundle} {st : PState} {b : Bundle} (h : finishBundle env sigOk ret st = .ok b) :
+    validOk ret st = true ∧ (hasFlag env.flags Gen.flagDontValidateSignature = true ∨ sigOk st.pkmPairs = true) ∧
+    b = { ret with validatedSignature := !hasFlag env.flags Gen.flagDontValidateSignature } := by
+  unfold finishBundle at h
+  simp only [postProcess_block env hm, validateConditions] at h
+  by_cases hv : validOk ret st = true
+  · rw [if_pos hv] at h
+    simp only at h
+    split at h
+    · cases h
+    · rename_i hs
+      injection h with h
+      refine ⟨hv, ?_, h.symm⟩
+      by_cases hd : hasFlag env.flags Gen.flagDontValidateSignature = true
+      · exact Or.inl hd
+      · by_cases hsg : sigOk st.pkmPairs = true
+        · exact Or.inr hsg
+        · exact absurd ⟨by simpa using hd, by simpa using hsg⟩ hs
+  · rw [if_neg hv] at h; cases h
+
+theorem finishBundle_block_of {env : Env} (hm : env.mempool = false) {sigOk : List (Bytes × Bytes) → Bool}
+    {ret : Bundle} {st : PState} (hv : validOk ret st = true)
+    (hs : hasFlag env.flags Gen.flagDontValidateSignature = true ∨ sigOk st.pkmPairs = true) :
+    finishBundle env sigOk ret st = .ok { ret with validatedSignature := !hasFlag env.flags Gen.flagDontValidateSignature } := by
+  unfold finishBundle
+  simp only [postProcess_block env hm, validateConditions]
+  rw [if_pos hv]
+  simp only
+  rw [if_neg]
+  rintro ⟨h1, h2⟩
+  rcases hs with hs | hs
+  · rw [hs] at h1; cases h1
+  · rw [hs] at h2; cases h2
+
+theorem spendLimit_ge {p : Params} {css : List CoinSpendM} (hlen : css.length < 2^64)
+    (hlim : ¬(hasFlag p.flags Gen.flagLimitSpends ∧ css.length > MAX_SPENDS_PER_BLOCK)) :
+    css.length ≤ spendLimit p.flags := by
+  unfold spendLimit
+  by_cases hf : hasFlag p.flags Gen.flagLimitSpends = true
+  · rw [if_pos hf]
+    have : ¬ css.length > MAX_SPENDS_PER_BLOCK := fun h => hlim ⟨hf, h⟩
+    omega
+  · rw [if_neg hf]; omega
+
+/-- **The bundle path and the block path agree** (`_partial`: see the exclusion below).
+For a bundle `css` of well-formed coin spends (32-byte parents, u64 amounts, plainly serialised reveals)
+whose declared puzzle hashes match and which has fewer than 2^64 spends, in byte-cost mode
+(no `INTERNED_GENERATOR`): let `g` be the generator that lists these spends *in bundle order* — that is
+`build_generator` of the reversed bundle, since `build_generator` reverses —, let its run be the value
+of the quote at cost 20, and give the block path the limit `L + 20 + 2·cost_per_byte`.  Then
+
+* if `run_spendbundle` accepts under `L` and the signature check passes on the (pk, msg) pairs it
+  returns (or signatures are not validated), `run_block_generator2` accepts; and
+* if `run_block_generator2` accepts, `run_spendbundle` accepts and the signature check passes on its pairs;
+
+in both cases the conditions are the same modulo the visitor (`SameUpToVisitor`: equal spends in the
+same order up to the two mempool eligibility bits, equal bundle-level fields), the block cost is the
+bundle cost plus exactly `20 + 2·cost_per_byte`, and the block execution cost is the bundle's plus 20.
+
+Excluded (hence `_partial`): the *reversed spend order*.  The statement compares the bundle with the
+generator listing its spends in the same order (equivalently, `build_generator css` with the bundle
+`css.reverse`, see `bundle_path_eq_block_path_reversed_partial`); that acceptance and the aggregates do
+not depend on the order of the spends is C06 `open_perm_spends`, which is open. -/
+theorem bundle_path_eq_block_path_partial (p : Params) (css : List CoinSpendM) (puz : Nat → RunRes) (L : Nat)
+    (hwf : ∀ s ∈ css, WF s) (hph : ∀ s ∈ css, s.puzzleHash = Sexp.treeHash s.puzzle)
+    (hint : hasFlag p.flags Gen.flagInternedGenerator = false) (hlen : css.length < 2^64) :
+    let g : GenInput := { len := (Sexp.serialize (buildGenerator css.reverse)).length, startsQuote := true,
+                          prog := buildGenerator css.reverse, nrefs := 0 }
+    let genRun : RunRes := some (20, quoted g.prog)
+    let L' := L + 20 + 2 * p.costPerByte
+    (∀ bb pairs, runSpendbundle p css puz L = .ok (bb, pairs) →
+      (hasFlag p.flags Gen.flagDontValidateSignature = true ∨ p.sigOk pairs = true) →
+      ∃ bn, native p g genRun puz L' = .ok bn ∧ SameUpToVisitor bn bb ∧
+        bn.cost = bb.cost + (20 + 2 * p.costPerByte) ∧ bn.executionCost = bb.executionCost + 20) ∧
+    (∀ bn, native p g genRun puz L' = .ok bn →
+      ∃ bb pairs, runSpendbundle p css puz L = .ok (bb, pairs) ∧
+        (hasFlag p.flags Gen.flagDontValidateSignature = true ∨ p.sigOk pairs = true) ∧ SameUpToVisitor bn bb ∧
+        bn.cost = bb.cost + (20 + 2 * p.costPerByte) ∧ bn.executionCost = bb.executionCost + 20) := by
+  intro g genRun L'
+  have hwfr : ∀ s ∈ css.reverse, WF s := fun s hs => hwf s (List.mem_reverse.mp hs)
+  have hbase : g.len * p.costPerByte = (calculateGeneratorLength css - QUOTE_BYTES) * p.costPerByte + 2 * p.costPerByte := by
+    have := base_cost_offset css.reverse hwfr p.costPerByte
+    rw [calculateGeneratorLength_reverse] at this
+    exact this
+  have hgen : genRun = some (20, .pair (Sexp.ofList (css.map item)) Sexp.nil) := by
+    show some (20, quoted (buildGenerator css.reverse)) = _
+    rw [quoted_buildGenerator_reverse]
+  have hnode : generatorNodeOk p.flags g.prog = true := by
+    show generatorNodeOk p.flags (buildGenerator css.reverse) = true
+    rw [buildGenerator_eq]; simp [generatorNodeOk]
+  have hrel0 : BlkRel 20 { executionCost := 20 } {} := ⟨rfl, rfl⟩
+  constructor
+  · intro bb pairs hb hsig
+    obtain ⟨hb1, hlim, retB, st, left, hloop, hv, rfl, rfl⟩ := runSpendbundle_ok hint hb
+    have hle := bundleLoop_le _ _ _ _ _ _ _ _ _ _ hloop
+    have hrel := nativeLoop_bundleLoop { flags := p.flags, mempool := true, pkOk := p.pkOk } puz 20 css 0
+      { executionCost := 20 } {} {} (spendLimit p.flags) (L - (calculateGeneratorLength css - QUOTE_BYTES) * p.costPerByte)
+      hph (spendLimit_ge hlen hlim) hrel0
+    rw [hloop] at hrel
+    change LoopRel 20 (nativeLoop { flags := p.flags, mempool := false, pkOk := p.pkOk } puz _ 0 _ _ _ _) _ at hrel
+    cases hN : nativeLoop { flags := p.flags, mempool := false, pkOk := p.pkOk } puz (Sexp.ofList (css.map item)) 0
+        { executionCost := 20 } {} (spendLimit p.flags) (L - (calculateGeneratorLength css - QUOTE_BYTES) * p.costPerByte) with
+    | error e => rw [hN] at hrel; simp only [LoopRel] at hrel
+    | ok q =>
+      obtain ⟨⟨retN, stN⟩, leftN⟩ := q
+      rw [hN] at hrel
+      simp only [LoopRel] at hrel
+      obtain ⟨e1, e2, hrelN⟩ := hrel
+      subst e1; subst e2
+      have hvN : validOk retN stN = true := by
+        rw [validOk_blkRel { flags := p.flags, mempool := true, pkOk := p.pkOk } hrelN]; exact hv
+      have hfin := finishBundle_block_of (env := { flags := p.flags, mempool := false, pkOk := p.pkOk }) rfl
+        (sigOk := p.sigOk) hvN hsig
+      refine ⟨{ retN with validatedSignature := !hasFlag p.flags Gen.flagDontValidateSignature, cost := L' - leftN }, ?_,
+        sameUpToVisitor_of_blkRel _ _ hrelN _ _ _, ?_, ?_⟩
+      · unfold native
+        rw [if_neg (by simp [g])]
+        simp only [hint, Bool.false_eq_true, if_false]
+        rw [hbase, subtractCost_of_le (by omega)]
+        simp only
+        rw [if_neg (by simp [hnode]), if_neg (by simp [g]), hgen, runWithLimit_of_le (by omega)]
+        simp only
+        rw [subtractCost_of_le (by omega)]
+        simp only [first]
+        rw [if_neg (by simp [allExtract3_items])]
+        have e : L' - ((calculateGeneratorLength css - QUOTE_BYTES) * p.costPerByte + 2 * p.costPerByte) - 20
+            = L - (calculateGeneratorLength css - QUOTE_BYTES) * p.costPerByte := by omega
+        rw [e]
+        rw [hN]
+        simp only
+        rw [hfin]
+      · simp only; omega
+      · obtain ⟨_, h2⟩ := hrelN
+        obtain ⟨_, p2⟩ := postProcess_blk { flags := p.flags, mempool := true, pkOk := p.pkOk } retB stN
+        simp only
+        rw [p2, h2]
+  · intro bn hn
+    obtain ⟨_, _, hb1, _, gc, allSpends, args, retN, st, left, bn0, hg, hgc, hloopN, hfin, rfl⟩ := C07.native_ok hint hn
+    rw [hgen] at hg
+    injection hg with hg; injection hg with g1 g2; injection g2 with g2 g3
+    subst g1; subst g2; subst g3
+    rw [hbase] at hgc hloopN hb1
+    have hbL : (calculateGeneratorLength css - QUOTE_BYTES) * p.costPerByte ≤ L := by omega
+    have e : L' - ((calculateGeneratorLength css - QUOTE_BYTES) * p.costPerByte + 2 * p.costPerByte) - 20
+        = L - (calculateGeneratorLength css - QUOTE_BYTES) * p.costPerByte := by omega
+    rw [e] at hloopN
+    have hlim : ¬(hasFlag p.flags Gen.flagLimitSpends ∧ css.length > MAX_SPENDS_PER_BLOCK) := by
+      rintro ⟨hf, hgt⟩
+      refine nativeLoop_too_long _ puz (css.map item) 0 _ _ _ _ _ ?_ hloopN
+      simp only [spendLimit, hf, if_true, List.length_map]; exact hgt
+    have hrel := nativeLoop_bundleLoop { flags := p.flags, mempool := true, pkOk := p.pkOk } puz 20 css 0
+      { executionCost := 20 } {} {} (spendLimit p.flags) (L - (calculateGeneratorLength css - QUOTE_BYTES) * p.costPerByte)
+      hph (spendLimit_ge hlen hlim) hrel0
+    change LoopRel 20 (nativeLoop { flags := p.flags, mempool := false, pkOk := p.pkOk } puz _ 0 _ _ _ _) _ at hrel
+    rw [hloopN] at hrel
+    cases hB : bundleLoop { flags := p.flags, mempool := true, pkOk := p.pkOk } puz css 0 {} {}
+        (L - (calculateGeneratorLength css - QUOTE_BYTES) * p.costPerByte) with
+    | error e => rw [hB] at hrel; simp only [LoopRel] at hrel
+    | ok q =>
+      obtain ⟨⟨retB, stB⟩, leftB⟩ := q
+      rw [hB] at hrel
+      simp only [LoopRel] at hrel
+      obtain ⟨e1, e2, hrelN⟩ := hrel
+      subst e1; subst e2
+      have hle := bundleLoop_le _ _ _ _ _ _ _ _ _ _ hB
+      obtain ⟨hvN, hsig, rfl⟩ := finishBundle_block_ok (env := { flags := p.flags, mempool := false, pkOk := p.pkOk }) rfl hfin
+      have hv : validOk (postProcess { flags := p.flags, mempool := true, pkOk := p.pkOk } retB st) st = true := by
+        rw [← validOk_blkRel { flags := p.flags, mempool := true, pkOk := p.pkOk } hrelN]; exact hvN
+      refine ⟨{ postProcess { flags := p.flags, mempool := true, pkOk := p.pkOk } retB st with cost := L - left }, st.pkmPairs,
+        ?_, hsig, sameUpToVisitor_of_blkRel _ _ hrelN _ _ _, ?_, ?_⟩
+      · unfold runSpendbundle
+        simp only [hint, Bool.false_eq_true, if_false]
+        rw [subtractCost_of_le hbL]
+        simp only
+        rw [if_neg hlim, hB]
+        simp only [validateConditions]
+        rw [if_pos hv]
+      · simp only; omega
+      · obtain ⟨_, h2⟩ := hrelN
+        obtain ⟨_, p2⟩ := postProcess_blk { flags := p.flags, mempool := true, pkOk := p.pkOk } retB st
+        simp only
+        rw [p2, h2]
+
+/-- The same statement read from the generator's side: `build_generator css` (whose spend list is `css`
+reversed) run by the block path agrees with the bundle path run on the spends *in the generator's order*
+(`css.reverse`; the puzzle runs `puz i` are indexed in that order on both sides).  `_partial`: as in
+`bundle_path_eq_block_path_partial`, the step from `css.reverse` to `css` on the bundle side is the open
+spend-order independence (C06 `open_perm_spends`). -/
+theorem bundle_path_eq_block_path_reversed_partial (p : Params) (css : List CoinSpendM) (puz : Nat → RunRes) (L : Nat)
+    (hwf : ∀ s ∈ css, WF s) (hph : ∀ s ∈ css, s.puzzleHash = Sexp.treeHash s.puzzle)
+    (hint : hasFlag p.flags Gen.flagInternedGenerator = false) (hlen : css.length < 2^64) :
+    let g : GenInput := { len := (Sexp.serialize (buildGenerator css)).length, startsQuote := true,
+                          prog := buildGenerator css, nrefs := 0 }
+    let genRun : RunRes := some (20, quoted g.prog)
+    let L' := L + 20 + 2 * p.costPerByte
+    (∀ bb pairs, runSpendbundle p css.reverse puz L = .ok (bb, pairs) →
+      (hasFlag p.flags Gen.flagDontValidateSignature = true ∨ p.sigOk pairs = true) →
+      ∃ bn, native p g genRun puz L' = .ok bn ∧ SameUpToVisitor bn bb ∧
+        bn.cost = bb.cost + (20 + 2 * p.costPerByte) ∧ bn.executionCost = bb.executionCost + 20) ∧
+    (∀ bn, native p g genRun puz L' = .ok bn →
+      ∃ bb pairs, runSpendbundle p css.reverse puz L = .ok (bb, pairs) ∧
+        (hasFlag p.flags Gen.flagDontValidateSignature = true ∨ p.sigOk pairs = true) ∧ SameUpToVisitor bn bb ∧
+        bn.cost = bb.cost + (20 + 2 * p.costPerByte) ∧ bn.executionCost = bb.executionCost + 20) := by
+  have h := bundle_path_eq_block_path_partial p css.reverse puz L
+    (fun s hs => hwf s (List.mem_reverse.mp hs)) (fun s hs => hph s (List.mem_reverse.mp hs)) hint
+    (by rw [List.length_reverse]; exact hlen)
+  rw [List.reverse_reverse] at h
+  exact h
+
+/-! ## non-vacuity of the hypotheses -/
+namespace Witness
+
+def p0 : Params := { flags := 0, pkOk := fun _ => true, sigOk := fun _ => true }
+def cs0 : CoinSpendM :=
+  { parent := List.replicate 32 7, puzzleHash := Sexp.treeHash (.atom [1]), amount := 0,
+    puzzle := .atom [1], solution := Sexp.nil, puzzleLen := 1, solutionLen := 1 }
+def puz0 : Nat → RunRes := fun _ => some (5, Sexp.nil)
+
+example : ∀ s ∈ [cs0], WF s := by
+  intro s hs
+  simp only [List.mem_cons, List.mem_nil_iff, or_false] at hs
+  subst hs
+  exact ⟨by decide, by decide, by decide, by decide⟩
+
+example : ∀ s ∈ [cs0], s.puzzleHash = Sexp.treeHash s.puzzle := by
+  intro s hs
+  simp only [List.mem_cons, List.mem_nil_iff, or_false] at hs
+  subst hs; rfl
+
+/-- the bundle path accepts this bundle: the first half of `bundle_path_eq_block_path_partial` is not vacuous -/
+example : (runSpendbundle p0 [cs0] puz0 1000000).toBool = true := by decide +kernel
+
+end Witness
 
 end ChiaModel.C08
